@@ -1,5 +1,6 @@
 """C08 — pruning structures never rule out a matching zone: builder/probe agreement and guard shape only."""
 from .util import *
+import json
 
 EXPLANATION = """
 Claimed narrowly. Decides agreement between the code that builds a pruning structure and the code that probes it; does NOT decide no-false-negative of SuRF / binary-fuse / calendar
@@ -21,9 +22,15 @@ c4) the SuRF bound searches (find_first_key_geq / find_last_key_leq) resume, at 
 c5) producer / consumer agreement on the backtrack frames: if a frame (node, s, e, chosen, path_len) is pushed only under a condition ("skip frames that could never be used"), that condition,
     written over the frame's own fields, must be the condition under which the dead-end code uses a popped frame (geq: chosen + 1 < e; leq: chosen > s). A push guarded by the mirror function's
     condition drops exactly the frames the search needs.
+d) the SuRF of a zone covers every field any of its events carries: ZoneSurfFilter::build_all_filtered enumerates payload keys inside a loop over the zone's events (not from one chosen event) - the pruner
+   rules out a zone that has no entry for the field.
+e) lanes: every query literal is encoded in the sign-flipped i64 lane (or, when fractional, moved to an integer bound - f), so a filter is only built for fields whose values encode in that lane:
+   is_field_numeric_consistent cannot return true for the kind of values kept above i64::MAX (raw u64 lane).
+f) fractional numbers never reach the f64 lane on either side: the builder indexes a fractional value through floor AND ceil into the integer lane; the probe moves a fractional bound with ceil for > / >=
+   and floor for < / <= (the other way round, or a truncation, rules out zones that hold matches).
 """
-FLOOR = 10
-REQUIRED = ["C08.a1", "C08.a2", "C08.a3", "C08.a4", "C08.b", "C08.c1", "C08.c2", "C08.c3", "C08.c4", "C08.c5"]
+FLOOR = 13
+REQUIRED = ["C08.a1", "C08.a2", "C08.a3", "C08.a4", "C08.b", "C08.c1", "C08.c2", "C08.c3", "C08.c4", "C08.c5", "C08.d", "C08.e", "C08.f"]
 
 
 def family(F, b):
@@ -50,8 +57,13 @@ def run(ctx):
         for nm, b in (("builder", bld), ("probe", prb)):
             enc = callees_matching(F, b, r"surf_encoding::\w+$")
             inst.sites.append("%s encoders: %s" % (nm, sorted(enc)))
-            if enc != {"engine::core::filter::surf_encoding::encode_value"}:
-                bad.append(("surf-encoder:%s" % nm, "SuRF %s derives key bytes from %s (must be encode_value only, on both sides)" % (nm, sorted(enc)), None))
+            # encode_value is the one dispatcher; the only lane encoder that may be used directly is the integer lane it itself uses for integral values
+            # (the builder indexes a fractional value by its integer neighbours, C08.f)
+            ev = F.fn("surf_encoding::encode_value")
+            int_lane = {c_.nname for c_ in ev.calls if not c_.cleanup and c_.nname.endswith("surf_encoding::encode_i64")}
+            allowed = {"engine::core::filter::surf_encoding::encode_value"} | int_lane
+            if "engine::core::filter::surf_encoding::encode_value" not in enc or not enc <= allowed:
+                bad.append(("surf-encoder:%s" % nm, "SuRF %s derives key bytes from %s (must be encode_value, or the integer lane it dispatches to, on both sides)" % (nm, sorted(enc)), None))
             other = callees_matching(F, b, r"(to_be_bytes|to_le_bytes|to_ne_bytes|to_bits)$")
             if other:
                 bad.append(("surf-raw-bytes:%s" % nm, "SuRF %s builds key bytes by hand (%s)" % (nm, sorted(other)), None))
@@ -421,3 +433,119 @@ def run(ctx):
                         bad.append(("push-guard-differs-from-use:%s" % fn, "%s pushes a backtrack frame only under %s but uses a popped frame under %s: frames the dead-end code needs are never recorded" % (fn, g, sorted(use_guards)), None))
         return bad
     ctx.run("C08.c5", "K11 SIB", "SurfQuery bound searches: frame push vs frame use", "a conditional push of a backtrack frame uses the condition the frame is later used under", c5)
+
+    def d_(inst):
+        b = F.fn("ZoneSurfFilter::build_all_filtered")
+        ks = b.find_calls(r"BTreeMap::keys$|HashMap.*::keys$|Map.*::keys$")
+        if not ks:
+            raise AnchorMissing("payload.keys() in build_all_filtered")
+        hs = for_headers(b)
+        bad = []
+        for k_ in ks:
+            # the map whose keys are taken: item of a for-loop over `.events`, not `events.get(0)` / first()
+            L = b.origins(k_.args[0], transparent=NEXT_TRANSPARENT, depth=16)
+            from_loop = [h for h in hs if h.dest and (h.dest[0] in wide_all(b, k_.args[0], partial=False))]
+            one_event = [l for l in L if l[0] == "call" and re.search(r"slice::get$|slice::first$|slice::last$|Vec::get$|Index.*::index$", norm_path(l[1]))]
+            over_events = any(".events" in json.dumps(st.get("v", {})) for h in from_loop for blk in b.blocks for st in blk["s"] if st.get("a") and st["a"][0] in wide_all(b, h.args[0], partial=False, depth=8))
+            inst.sites.append("%s: keys() of %s; loop over events=%s" % (sp(b, k_.bb), fmt_leaves(L), bool(from_loop and over_events)))
+            if one_event or not (from_loop and over_events):
+                bad.append(("keys-from-one-event", "build_all_filtered takes a zone's fields from one event (%s): a zone whose chosen event lacks an optional field has no SuRF entry for it and is ruled out" % (fmt_leaves(set(one_event)) if one_event else "no loop over the zone's events"), None))
+        return bad
+    ctx.run("C08.d", "K9 LOOP", "ZoneSurfFilter::build_all_filtered", "the SuRF of a zone is built from the fields of all its events", d_)
+
+    def e_(inst):
+        b = F.fn("zone_surf_filter::is_field_numeric_consistent")
+        # Kind::U aggregates that are compared with `kind` where the result decides the return value
+        us = [(bb, v) for (bb, j, v, dst) in b.aggregates("Kind", "U")]
+        cmpU = []
+        for c_ in b.find_calls(r"PartialEq::ne$|PartialEq::eq$"):
+            # one side is the literal Kind::U (a fresh aggregate and nothing else), not a variable that may hold it
+            if any((lambda L: len(L) == 1 and all(l[0] == "agg" and str(l[1]).endswith("Kind::U") for l in L))(b.origins(a_)) for a_ in c_.args):
+                cmpU.append(c_)
+        inst.sites = ["Kind::U built at %s" % [sp(b, x[0]) for x in us], "compared with the result kind at %s" % [sp(b, c_.bb) for c_ in cmpU]]
+        def rejects(c_):
+            """the comparison's outcome is the return value, or its 'is U' outcome returns false"""
+            if c_.dest == [0]:
+                return True
+            is_ne = c_.nname.endswith("::ne")
+            try:
+                es = bool_result_edge(b, c_, not is_ne)   # edge on which kind == U
+            except Exception:
+                return False
+            for (i_, t_) in es:
+                for st in b.blocks[t_]["s"]:
+                    if st.get("a") == [0] and st["v"].get("r") == "use" and st["v"]["o"].get("k") == "false":
+                        return True
+            return False
+        if not [c_ for c_ in cmpU if rejects(c_)]:
+            return [("u64-lane-filter-built", "is_field_numeric_consistent accepts a field whose values are kept above i64::MAX (raw u64 lane): a SuRF is built whose keys do not order against any query literal", None)]
+        return []
+    ctx.run("C08.e", "K8 GUARD", "is_field_numeric_consistent", "no SuRF for values that live outside the literal lane", e_)
+
+    def f_(inst):
+        bad = []
+        bld = F.fn("ZoneSurfFilter::build_all_filtered")
+        fl = bld.find_calls(r"f64::floor$|f64>::floor$|::floor$")
+        ce = bld.find_calls(r"f64::ceil$|::ceil$")
+        ei = bld.find_calls(r"surf_encoding::encode_i64$")
+
+        def feeds(c_, encs):
+            return any(c_.dest and c_.dest[0] in wide_all(bld, e_.args[0], partial=False) for e_ in encs)
+        ok_b = any(feeds(c_, ei) for c_ in fl) and any(feeds(c_, ei) for c_ in ce)
+        inst.sites.append("builder: floor->encode_i64=%s ceil->encode_i64=%s" % (any(feeds(c_, ei) for c_ in fl), any(feeds(c_, ei) for c_ in ce)))
+        if not ok_b:
+            bad.append(("fractional-value-lane", "build_all_filtered does not index a fractional value through both floor and ceil into the integer lane: it falls into the f64 lane, which no integer bound can reach", None))
+        prb = F.fn("RangePruner::apply_surf_only")
+        pfl = prb.find_calls(r"::floor$")
+        pce = prb.find_calls(r"::ceil$")
+        if not pfl or not pce:
+            bad.append(("fractional-bound-lane", "apply_surf_only does not move a fractional bound to an integer (no floor / ceil): it is looked up in the f64 lane", None))
+            return bad
+        # direction table: which CompareOp variants lead to ceil, which to floor. `matches!(op, A | B)` compiles to an enum switch whose arms set a bool
+        # that a second switch tests; resolve variant -> bool value -> side.
+        side = {}
+        for bi in sorted(prb.live_blocks()):
+            if prb.blocks[bi]["t"]["t"] != "switch":
+                continue
+            bs = prb.switch_info(bi)
+            if not bs or bs["kind"] != "bool" or bs["true"] is None or bs["false"] is None:
+                continue
+            t_ceil = any(prb.dominates_edge((bi, bs["true"]), c_.bb) for c_ in pce)
+            t_floor = any(prb.dominates_edge((bi, bs["true"]), c_.bb) for c_ in pfl)
+            f_ceil = any(prb.dominates_edge((bi, bs["false"]), c_.bb) for c_ in pce)
+            f_floor = any(prb.dominates_edge((bi, bs["false"]), c_.bb) for c_ in pfl)
+            if not ((t_ceil and f_floor) or (t_floor and f_ceil)):
+                continue
+            pl = bs["op"].get("m") or bs["op"].get("c")
+            tb = [bb for (bb, j, dpl, rv) in prb.defs().get(pl[0], []) if j != -1 and rv.get("r") == "use" and (rv["o"].get("k") == "true")]
+            fb = [bb for (bb, j, dpl, rv) in prb.defs().get(pl[0], []) if j != -1 and rv.get("r") == "use" and (rv["o"].get("k") == "false")]
+            for ei in sorted(prb.live_blocks()):
+                if prb.blocks[ei]["t"]["t"] != "switch":
+                    continue
+                es = prb.switch_info(ei)
+                if not es or es["kind"] != "enum" or not str(es.get("adt") or "").endswith("CompareOp"):
+                    continue
+                for var, tgt in es["edges"].items():
+                    if tgt is None:
+                        continue
+                    rt = prb.reach(tgt, cut_blocks=fb + [bi])
+                    rf = prb.reach(tgt, cut_blocks=tb + [bi])
+                    to_true = any(x in rt or x == tgt for x in tb)
+                    to_false = any(x in rf or x == tgt for x in fb)
+                    if to_true == to_false:
+                        continue
+                    names = [var] if var != "else" else list(es.get("else_variants") or [])
+                    for n_ in names:
+                        if to_true:
+                            side[n_] = "ceil" if t_ceil else "floor"
+                        else:
+                            side[n_] = "ceil" if f_ceil else "floor"
+        inst.sites.append("probe: fractional bound rounding by operator: %s" % {k_: side[k_] for k_ in sorted(side) if k_ in ("Gt", "Gte", "Lt", "Lte")})
+        want = {"Gt": "ceil", "Gte": "ceil", "Lt": "floor", "Lte": "floor"}
+        if not any(k_ in side for k_ in want):
+            raise AnchorMissing("the operator -> ceil / floor decision in apply_surf_only")
+        for var, w in want.items():
+            if side.get(var) and side[var] != w:
+                bad.append(("fractional-bound-direction:%s" % var, "apply_surf_only rounds a fractional bound of %s with %s (needs %s): zones holding matches are ruled out" % (var, side[var], w), None))
+        return bad
+    ctx.run("C08.f", "K6 TABLE + K7", "ZoneSurfFilter::build_all_filtered / RangePruner::apply_surf_only", "fractional values and bounds are mapped into the integer lane with the sound rounding", f_)
